@@ -15,9 +15,19 @@ COMMON_ASSUMPTIONS = [
 
 FEATURE_TAG = {"pb-encode-default-value": "d"}
 
-THRIFT_RT = ["common", "protos", "ref_thrift", "l0", "insts_l0"]
+THRIFT_RT = ["common", "protos", "ref_thrift", "l0", "insts_l0", "l1", "insts_l1"]
+
+PB_RT = ["common", "ref_thrift", "ref_pb", "pb", "insts_pb"]
 
 PROPS = {
+    "C05": dict(
+        modules=PB_RT,
+        outside="repeated fields with more than 2 elements, strings/bytes longer than 3, maps with more than 1 entry, hash maps (ahash RandomState needs getrandom), messages beyond the corpus; tags above 2047 for the quick tier of scalar modules (all tags in thorough and for the key codec)",
+    ),
+    "C06": dict(
+        modules=PB_RT,
+        outside="as C05",
+    ),
     "C01": dict(
         modules=THRIFT_RT,
         outside="strings/binaries longer than 3 bytes (4096-byte zero-copy payload aside), containers with more than 2 elements, nesting deeper than 3, more than 2 values back to back",
